@@ -4233,7 +4233,7 @@ class Wallet(object):
             rt.version = t['version'].to_bytes(4, 'big')
             rt.version_int = t['version']
             rt.block_hash = t['block_hash']
-            rt.rawtx = t['raw']
+            rt.rawtx = bytes.fromhex(t['raw']) if isinstance(t['raw'], str) else t['raw']
             rt.coinbase = t['coinbase']
             rt.flag = t['flag']
             rt.size = t['size']
